@@ -159,3 +159,11 @@ package sqlgen
 
 //@ func isNilValue
 //@   assigns nothing
+
+// ---- C12 (what is sent stays inside the checked filter): the checked filter is AND-ed with the WHOLE custom clause - both
+// sides parenthesised, so an OR at the top of SelectOptions.Where cannot escape the filter - and the filter's values come
+// first, in the order of its placeholders.
+//@ func SelectOptions.IncludeFilter
+//@   requires s != nil
+//@   call Sprintf assert arg0 == "(%s) AND (%s)" && len(arg1) == 2 && arg1[0] == any(filterWhere) && arg1[1] == any(s.Where)
+//@   call append assert filterWhere != "" && arg0 == filterValues && arg1 == s.Values
